@@ -21,11 +21,11 @@ LEVEL = "exploration"
 ENGINE = "E1-enumeration"
 TECHNIQUE = "bounded exhaustive enumeration of DataFrame layouts built from a record list, imported with the real from_df and compared with the records"
 RULE = (
-    "complete enumeration of (dimension set: ordered selections of 1-3 dims from a pool of 6 with typed/untyped "
+    "complete enumeration of (dimension set: ordered selections of 1-3 dims from a pool of 10 with typed/untyped "
     "int/str items and single-item dims; quick: all 1- and 2-dim sets + 18 three-dim sets) x (long / wide over "
     "each dim) x (index subset: none, first, last, all remaining dims) x (header: names, letters, mixed, "
-    "items-only) x (omit each subset of single-item dims) and, rotated over these in quick and as a full product "
-    "in thorough, (value column name) x (row order: identity, reversed, rotation, interleaved) x (column order: "
+    "items-only) x (omit each subset of single-item dims) and, rotated over these (8 members of the product per base layout in quick, 16 "
+    "in thorough), (value column name) x (row order: identity, reversed, rotation, interleaved) x (column order: "
     "identity, reversed, rotation) x (in memory / CSV text) x (dense / sparse with allow_missing_values); plus "
     "every to_df layout (index or columns, dim_to_columns for each dim, sparse; C / Fortran / strided value buffers) checked row by row and re-imported; every (duplicated row with another value, other row dropped) pair, which must be refused. "
     "one 182 x 182 array (more than 32767 entries; 260 x 260 thorough) in three layouts. Non-trivial = array with >= 2 entries. Distinct by construction."
